@@ -706,6 +706,9 @@ def render_fn(idx, fs, table, ctx):
     if getattr(fs, "twin_wrap", False):
         # vacuity guard (DESIGN.md §3.8): the end of the real body must be reachable under requires + hints,
         # i.e. this assertion has to FAIL; contracts are left untouched so callers are not affected
+        # a body whose paths all leave through `return` never reaches its end: the same assertion is placed in
+        # front of every statement-position `return`, and one failing assertion is enough for the twin to count
+        body_txt = re.sub(r"(?<=[;{}])(\s*)return\b", r"\1proof { assert(false); } return", body_txt)
         body_txt = "let __twin_r = {\n" + body_txt + "\n};\nproof { assert(false); }\n__twin_r"
     text = sig_txt + contract + "\n{\n" + head_txt + "// ---- verbatim body from expanded.rs:%d (sha256 %s) ----\n" % (
         idx.line_of(it.tb), sha(idx.src(it.tb, it.t1))) + body_txt + "\n}\n"
@@ -781,10 +784,10 @@ def expand_for(lines, root):
                             spec = fl.split(":", 1)[1]
                     spec = " ".join("(" + t + ")" for t in re.findall(r"\(([^()]*)\)", spec) if t.split(";")[0].strip() != PARAMS.get("FAM"))
                     key = None
-                if key in ("ONE", "ONE_SIGNED"):
+                if key in ("ONE", "ONE_SIGNED", "ONE_UNSIGNED"):
                     # unit instance for a single family (driver runs the ten instances in parallel)
                     only = PARAMS.get("FAM")
-                    key = "ALL10" if key == "ONE" else "SIGNED5"
+                    key = {"ONE": "ALL10", "ONE_SIGNED": "SIGNED5", "ONE_UNSIGNED": "UNSIGNED5"}[key]
                 for fl in open(root + "/specs/families.txt"):
                     if key is not None and fl.startswith(key + ":"):
                         spec = fl.split(":", 1)[1]
@@ -834,6 +837,14 @@ def render_unit(idx, tmpl_path, root, must_fail=False, params=None):
         s = ln.strip()
         if s.startswith("//@default props"):
             defaults["props"] = s[len("//@default props"):].strip()
+            i += 1
+            continue
+        if s.startswith("//@require_source "):
+            # a trusted fact of the unit depends on this text being present in the expansion (regex)
+            pat = s[len("//@require_source "):].strip()
+            if not re.search(pat, idx.text):
+                raise ExtractError("required source text not found: %s" % pat)
+            out.append("// required source text present: " + pat)
             i += 1
             continue
         if s.startswith("//@ctx "):
